@@ -8,7 +8,6 @@ import (
 	"os"
 	"sort"
 	"sync"
-	"testing/synctest"
 	"time"
 
 	"mycoverif/core"
@@ -71,6 +70,9 @@ type ConnNet struct {
 	// Log of every record written (copy), for confidentiality checks.
 	Written []*Record
 	KeepLog bool
+	// OnDeliver, if set, sees every record object the harness delivers
+	// through Deliver / DeliverSplit (not raw DeliverBytes).
+	OnDeliver func(*Record)
 }
 
 // NewConnNet returns an empty byte-level network.
@@ -320,6 +322,9 @@ func (r *Record) dst() *SimConn {
 // Deliver hands the record's bytes to the reading end and waits for quiescence.
 func (n *ConnNet) Deliver(r *Record) {
 	n.Remove(r)
+	if n.OnDeliver != nil {
+		n.OnDeliver(r)
+	}
 	n.DeliverBytes(r.dst(), r.Data, r.EOF)
 }
 
@@ -331,12 +336,15 @@ func (n *ConnNet) DeliverBytes(to *SimConn, data []byte, eof bool) {
 	}
 	time.Sleep(w)
 	to.push(data, eof)
-	synctest.Wait()
+	wait()
 }
 
 // DeliverSplit delivers a record in several short reads.
 func (n *ConnNet) DeliverSplit(r *Record, cuts []int) {
 	n.Remove(r)
+	if n.OnDeliver != nil {
+		n.OnDeliver(r)
+	}
 	prev := 0
 	for _, c := range cuts {
 		if c <= prev || c >= len(r.Data) {
@@ -391,7 +399,7 @@ func (n *ConnNet) RunFor(tp *core.Tape, d time.Duration, maxSteps int) int {
 			step = rem
 		}
 		time.Sleep(step)
-		synctest.Wait()
+		wait()
 	}
 	return steps
 }
